@@ -9,3 +9,17 @@ pub trait RefCipher: Send + Sync {
     fn encrypt(&self, block: &mut [u8]);
     fn decrypt(&self, block: &mut [u8]);
 }
+
+pub mod aria;
+pub mod camellia;
+pub mod gift;
+pub mod rc5;
+pub mod sm4;
+pub mod speck;
+pub mod threefish;
+pub mod aes;
+pub mod blowfish;
+pub mod des;
+pub mod idea;
+pub mod rc2;
+pub mod xtea;
